@@ -1471,3 +1471,390 @@ Corollary one_off_fault_returns_no_lock : forall w0 c k,
   Inv w0 -> (forall a, fault_target k w0 (api c) <> Some (Acquire LFile a)) ->
   exists w r, run_fault (FWait k false) w0 (api c) = Some (w, r) /\ locks w = [].
 Proof. intros. apply fault_returns_no_lock; [assumption|]. apply noflock_one_off. assumption. Qed.
+
+(* ================================================================================== *)
+(* 8. (F4) ONE-OFF faults in tag_object: the roll-back                                 *)
+(* ================================================================================== *)
+
+(* run_fault with the final fault state *)
+Fixpoint rfs {A} (st : fstate) (w : world) (m : prog A) : option (world * A * fstate) :=
+  match m with
+  | Ret a => Some (w, a, st)
+  | Bad => None
+  | Vis o k =>
+      match fault_op st o w with
+      | (Some (x, w'), st') => rfs st' w' (k x)
+      | (None, _) => None
+      end
+  end.
+
+Lemma rfs_run_fault : forall A (m : prog A) st w,
+  run_fault st w m = match rfs st w m with Some (w', r, _) => Some (w', r) | None => None end.
+Proof.
+  induction m as [a|o k IH|]; intros st w; simpl; auto.
+  destruct (fault_op st o w) as [[[x w']|] st']; auto.
+Qed.
+
+Lemma rfs_bind : forall A B (m : prog A) (f : A -> prog B) st w,
+  rfs st w (bind m f) =
+  match rfs st w m with Some (w', a, st') => rfs st' w' (f a) | None => None end.
+Proof.
+  induction m as [a|o k IH|]; intros f st w; simpl; auto.
+  destruct (fault_op st o w) as [[[x w']|] st']; auto.
+Qed.
+
+Lemma rfs_mbind : forall A B (m : M A) (f : A -> M B) st w,
+  rfs st w (mbind m f) =
+  match rfs st w m with
+  | Some (w', Val a, st') => rfs st' w' (f a)
+  | Some (w', Exn e, st') => Some (w', Exn e, st')
+  | None => None
+  end.
+Proof.
+  intros. unfold mbind. rewrite rfs_bind. destruct (rfs st w m) as [[[w' [a|e]] st']|]; reflexivity.
+Qed.
+
+Lemma rfs_catch : forall A (m : M A) st w,
+  rfs st w (catch m) =
+  match rfs st w m with Some (w', r, st') => Some (w', Val r, st') | None => None end.
+Proof.
+  intros. unfold catch. rewrite rfs_bind. destruct (rfs st w m) as [[[w' r] st']|]; reflexivity.
+Qed.
+
+Lemma rfs_try_finally : forall A (m : M A) (fin : M unit) st w,
+  rfs st w (try_finally m fin) =
+  match rfs st w m with
+  | Some (w', r, st') =>
+      match rfs st' w' fin with
+      | Some (w'', Val _, st'') => Some (w'', r, st'')
+      | Some (w'', Exn e, st'') => Some (w'', Exn e, st'')
+      | None => None
+      end
+  | None => None
+  end.
+Proof.
+  intros. unfold try_finally. rewrite rfs_bind. destruct (rfs st w m) as [[[w' r] st']|]; auto.
+  rewrite rfs_bind. destruct (rfs st' w' fin) as [[[w'' [u|e]] st'']|]; reflexivity.
+Qed.
+
+Lemma rfs_done : forall A (m : prog A) w,
+  rfs FDone w m = match run_seq w m with Some (w', a) => Some (w', a, FDone) | None => None end.
+Proof.
+  induction m as [a|o k IH|]; intros w; simpl; auto.
+  unfold fault_op. destruct (is_site o); destruct (exec_op 0 o w) as [[x w']|]; auto.
+Qed.
+
+(* a program without fault sites runs as without faults *)
+Fixpoint nosite {A} (m : prog A) : Prop :=
+  match m with Vis o k => is_site o = false /\ forall x, nosite (k x) | _ => True end.
+
+Lemma rfs_nosite : forall A (m : prog A) st w, nosite m ->
+  rfs st w m = match run_seq w m with Some (w', a) => Some (w', a, st) | None => None end.
+Proof.
+  induction m as [a|o k IH|]; intros st w H; simpl; auto.
+  destruct H as [Hs Hk]. unfold fault_op. rewrite Hs.
+  destruct (exec_op 0 o w) as [[x w']|]; auto.
+Qed.
+
+(* a program that is one site operation (not a rename) followed by returns *)
+Definition one_site {A} (m : prog A) : Prop :=
+  match m with
+  | Vis o k => is_site o = true /\ is_rename o = false /\ forall x, nosite (k x)
+  | _ => False
+  end.
+
+Lemma rfs_one_site_S : forall A (m : prog A) j w, one_site m ->
+  rfs (FWait (S j) false) w m =
+  match run_seq w m with Some (w', a) => Some (w', a, FWait j false) | None => None end.
+Proof.
+  intros A [a|o k|] j w H; simpl in H; try contradiction.
+  destruct H as (Hs & _ & Hk). simpl. unfold fault_op. rewrite Hs.
+  destruct (exec_op 0 o w) as [[x w']|]; auto. apply rfs_nosite. apply Hk.
+Qed.
+
+
+Local Arguments exec_op : simpl never.
+
+Lemma rfs_unit_site_0 : forall o w, is_site o = true -> is_rename o = false ->
+  rfs (FWait 0 false) w (unit_op o) = Some (w, Exn EOSError, FDone).
+Proof.
+  intros o w Hs Hr. unfold unit_op. simpl. unfold fault_op. rewrite Hs.
+  destruct o; simpl in Hr; try discriminate; reflexivity.
+Qed.
+Lemma rfs_unit_site_S : forall o j w, is_site o = true ->
+  rfs (FWait (S j) false) w (unit_op o) =
+  match run_seq w (unit_op o) with Some (w', a) => Some (w', a, FWait j false) | None => None end.
+Proof.
+  intros o j w Hs. unfold unit_op. simpl. unfold fault_op. rewrite Hs.
+  destruct (exec_op 0 o w) as [[x w']|]; auto. destruct x; reflexivity.
+Qed.
+Lemma rfs_unit_rename_0 : forall s d w,
+  rfs (FWait 0 false) w (unit_op (Rename s d)) =
+  match run_seq w (unit_op (Rename s d)) with Some (w', a) => Some (w', a, FDone) | None => None end.
+Proof.
+  intros. unfold unit_op. simpl.
+  destruct (exec_op 0 (Rename s d) w) as [[x w']|]; auto. destruct x; reflexivity.
+Qed.
+Lemma rfs_unit_nonsite : forall o st w, is_site o = false ->
+  rfs st w (unit_op o) =
+  match run_seq w (unit_op o) with Some (w', a) => Some (w', a, st) | None => None end.
+Proof.
+  intros o st w Hs. unfold unit_op. simpl. unfold fault_op. rewrite Hs.
+  destruct (exec_op 0 o w) as [[x w']|]; auto. destruct x; reflexivity.
+Qed.
+Lemma rfs_read_0 : forall a w, rfs (FWait 0 false) w (read a) = Some (w, Exn EOSError, FDone).
+Proof. reflexivity. Qed.
+Lemma rfs_read_S : forall a j w,
+  rfs (FWait (S j) false) w (read a) =
+  match run_seq w (read a) with Some (w', r) => Some (w', r, FWait j false) | None => None end.
+Proof.
+  intros. unfold read. simpl. destruct (exec_op 0 (Read a) w) as [[x w']|]; auto. destruct x; reflexivity.
+Qed.
+Lemma rfs_mktmp_0 : forall ar init w, rfs (FWait 0 false) w (mktmp ar init) = Some (w, Exn EOSError, FDone).
+Proof. reflexivity. Qed.
+Lemma rfs_mktmp_S : forall ar init j w,
+  rfs (FWait (S j) false) w (mktmp ar init) =
+  match run_seq w (mktmp ar init) with Some (w', r) => Some (w', r, FWait j false) | None => None end.
+Proof. reflexivity. Qed.
+
+Lemma rfs_probe : forall a st w,
+  rfs st w (probe a) = match run_seq w (probe a) with Some (w', r) => Some (w', r, st) | None => None end.
+Proof. reflexivity. Qed.
+Lemma rfs_held : forall cls x st w,
+  rfs st w (held cls x) = match run_seq w (held cls x) with Some (w', r) => Some (w', r, st) | None => None end.
+Proof. reflexivity. Qed.
+Lemma rfs_acquire : forall cls x st w, cls <> LFile ->
+  rfs st w (acquire cls x) = match run_seq w (acquire cls x) with Some (w', r) => Some (w', r, st) | None => None end.
+Proof.
+  intros cls x st w H. unfold acquire. simpl. unfold fault_op.
+  assert (Hs : is_site (Acquire cls x) = false) by (destruct cls; try reflexivity; contradiction).
+  rewrite Hs. destruct (exec_op 0 (Acquire cls x) w) as [[y w']|]; auto. destruct y; reflexivity.
+Qed.
+Lemma rfs_release : forall cls x st w,
+  rfs st w (release cls x) = match run_seq w (release cls x) with Some (w', r) => Some (w', r, st) | None => None end.
+Proof.
+  intros. unfold release. simpl. unfold fault_op. simpl.
+  destruct (exec_op 0 (Release cls x) w) as [[y w']|]; auto. destruct y; reflexivity.
+Qed.
+Lemma rfs_funlock : forall a st w,
+  rfs st w (funlock a) = match run_seq w (funlock a) with Some (w', r) => Some (w', r, st) | None => None end.
+Proof.
+  intros. unfold funlock. simpl. unfold fault_op. simpl.
+  destruct (exec_op 0 (Release LFile (IDoc a)) w) as [[y w']|]; auto. destruct y; reflexivity.
+Qed.
+Lemma rfs_ret : forall A (a : A) st w, rfs st w (ret a) = Some (w, Val a, st).
+Proof. reflexivity. Qed.
+Lemma rfs_raise : forall A e st w, rfs st w (@raise A e) = Some (w, Exn e, st).
+Proof. reflexivity. Qed.
+
+Lemma run_funlock_free : forall m L a, memb lock_eqb (LFile, IDoc a) L = false ->
+  run_seq (mkWorld m L) (funlock a) = Some (mkWorld m L, Val tt).
+Proof.
+  intros m L a H. unfold funlock. cbn [run_seq]. unfold exec_op. cbn [locks]. rewrite H. reflexivity.
+Qed.
+
+Ltac fstruct := first [rewrite rfs_mbind | rewrite rfs_catch | rewrite rfs_try_finally].
+Ltac fleaf :=
+  first [ rewrite rfs_probe | rewrite rfs_held | rewrite rfs_acquire by discriminate
+        | rewrite rfs_release | rewrite rfs_funlock | rewrite rfs_ret | rewrite rfs_raise
+        | rewrite rfs_unit_nonsite by reflexivity
+        | rewrite rfs_unit_site_S by reflexivity | rewrite rfs_read_S | rewrite rfs_mktmp_S
+        | rewrite rfs_unit_rename_0
+        | rewrite rfs_unit_site_0 by reflexivity | rewrite rfs_read_0 | rewrite rfs_mktmp_0
+        | rewrite rfs_done ].
+Ltac frun1 := first [ fstruct | fleaf | rewrite run_funlock_free by (lk; first [reflexivity|assumption]) | step1 | sub2 ]; lk.
+Ltac neq_rw := match goal with H : (_ =? _) = false |- _ => rewrite H end.
+Ltac fgo := repeat first [ frun1 | progress lk | neq_rw ].
+
+
+Lemma filter_lines_notin : forall p l, ~ In p (filter_lines p l).
+Proof.
+  intros p l H. unfold filter_lines in H. apply filter_In in H. destruct H as [_ H].
+  rewrite Nat.eqb_refl in H. discriminate.
+Qed.
+
+(* the roll-back: untag_object p c run while tag_object holds its two locks, from a file map in
+   which p's reference, if any, names c and the list of c, if any, is a list *)
+Ltac unt_fin :=
+  eexists; split; [reflexivity|]; split; [lk; reflexivity|]; split; [intros k; lk; reflexivity|];
+  split; [intros k Hk; lk; apply Nat.eqb_neq in Hk; rewrite ?Hk; lk; reflexivity|];
+  intros l0; lk; intros H; try discriminate H; inversion H; subst; try solve [intros []].
+
+Lemma untag_rollback : forall M L p c,
+  memb lock_eqb (LRefPid, IPid p) L = true -> memb lock_eqb (LCid, ICid c) L = true ->
+  memb lock_eqb (LFile, IDoc (ACidRef c)) L = false ->
+  (forall x, lookup (APidRef p) M = Some x -> x = CCid c) ->
+  (forall y, lookup (ACidRef c) M = Some y -> exists l, y = CLines l) ->
+  exists M', run_seq (mkWorld M L) (untag_object p c) = Some (mkWorld M' L, Val tt) /\
+    lookup (APidRef p) M' = None /\
+    (forall k, lookup (AObj k) M' = lookup (AObj k) M) /\
+    (forall k, k <> c -> lookup (ACidRef k) M' = lookup (ACidRef k) M) /\
+    (forall l0, lookup (ACidRef c) M' = Some (CLines l0) -> ~ In p l0).
+Proof.
+  intros M L p c HL1 HL2 HL3 HP HC.
+  unfold untag_object, find_object, validate_and_check_cid_lock, mark_pid_refs,
+    remove_pid_and_handle_cid, rename_for_deletion.
+  destruct (lookup (APidRef p) M) as [x|] eqn:Hp.
+  - rewrite (HP x eq_refl) in Hp. clear HP.
+    destruct (lookup (ACidRef c) M) as [y|] eqn:Hc.
+    + destruct (HC y eq_refl) as [l ->]. clear HC.
+      destruct (memb Nat.eqb p l) eqn:Hm.
+      * destruct (lookup (AObj c) M) as [o|] eqn:Ho.
+        -- run2.
+           destruct (filter_lines p l) as [|q l'] eqn:Hnew; run2; cbn [delete_marked app]; run2; unt_fin.
+           rewrite <- Hnew. apply filter_lines_notin.
+        -- run2.
+           destruct (filter_lines p l) as [|q l'] eqn:Hnew; run2; cbn [delete_marked app]; run2; unt_fin.
+           rewrite <- Hnew. apply filter_lines_notin.
+      * run2. cbn [delete_marked app]. run2. unt_fin.
+        apply (proj1 (memb_false_not_In Nat.eqb nat_eqb_true Nat.eqb_refl p l0)). exact Hm.
+    + run2. cbn [delete_marked app]. run2. unt_fin.
+  - clear HP. destruct (lookup (ACidRef c) M) as [y|] eqn:Hc.
+    + destruct (HC y eq_refl) as [l ->]. clear HC.
+      run2. destruct (filter_lines p l) as [|q l'] eqn:Hnew; run2; cbn [delete_marked app]; run2; unt_fin.
+      rewrite <- Hnew. apply filter_lines_notin.
+    + unfold update_refs_remove. run2. cbn [delete_marked app]. run2. unt_fin.
+Qed.
+
+
+Ltac fault_branch :=
+  fgo;
+  match goal with
+  | |- context [run_seq (mkWorld ?M ?L0) (untag_object ?p ?c)] =>
+      let M' := fresh "M'" in let Hu := fresh "Hu" in
+      let U1 := fresh "U1" in let U2 := fresh "U2" in let U3 := fresh "U3" in let U4 := fresh "U4" in
+      destruct (untag_rollback M L0 p c) as (M' & Hu & U1 & U2 & U3 & U4);
+      [ lk; reflexivity
+      | lk; reflexivity
+      | lk; first [reflexivity | assumption]
+      | let x := fresh "x" in let H := fresh "H" in
+        intros x; lk; intros H; first [discriminate H | inversion H; reflexivity]
+      | let y := fresh "y" in let H := fresh "H" in
+        intros y; lk; intros H; first [discriminate H | inversion H; eauto]
+      | rewrite Hu; fgo;
+        eexists; eexists; eexists; split; [reflexivity|];
+        split; [intros k; rewrite U2; lk; reflexivity|];
+        split; [exact U1|]; split; [|exact U4];
+        let k := fresh "k" in let Hk := fresh "Hk" in
+        intros k Hk; rewrite (U3 k Hk); apply Nat.eqb_neq in Hk; lk; rewrite ?Hk; lk; reflexivity ]
+  end.
+Ltac name_tmp2 :=
+  match goal with
+  | |- context [fresh_tmp ?ar 0 ?M] =>
+      let n := fresh "n" in let Hn := fresh "Hn" in let Hab := fresh "Hab" in
+      destruct (fresh_tmp_shape ar 0 M) as [n Hn];
+      pose proof (fresh_tmp_absent ar 0 M) as Hab; rewrite Hn in *
+  end.
+Ltac fgo2 := repeat first [ frun1 | progress lk | neq_rw | name_tmp2 ].
+Ltac val_fin :=
+  eexists; eexists; eexists; split; [reflexivity|];
+  split; [intros k; lk; reflexivity|exact I].
+Tactic Notation "site" ident(j) :=
+  destruct j as [|j]; [first [fault_branch | fgo2; val_fin] | fgo2].
+
+Definition tag_post (m : fmap) (p : pid) (c : cid) (M' : fmap) (R : outcome unit) : Prop :=
+  (forall k, lookup (AObj k) M' = lookup (AObj k) m) /\
+  match R with
+  | Val _ => True
+  | Exn _ =>
+      lookup (APidRef p) M' = None /\
+      (forall k, k <> c -> lookup (ACidRef k) M' = lookup (ACidRef k) m) /\
+      (forall l0, lookup (ACidRef c) M' = Some (CLines l0) -> ~ In p l0)
+  end.
+
+Lemma tag_one_off_present : forall m L p c l j,
+  lookup (APidRef p) m = None -> lookup (ACidRef c) m = Some (CLines l) -> memb Nat.eqb p l = false ->
+  memb lock_eqb (LRefPid, IPid p) L = false -> memb lock_eqb (LCid, ICid c) L = false ->
+  memb lock_eqb (LFile, IDoc (ACidRef c)) L = false ->
+  exists M' R st', rfs (FWait j false) (mkWorld m L) (tag_object p c) = Some (mkWorld M' L, R, st') /\
+                   tag_post m p c M' R.
+Proof.
+  intros m L p c l j Hp Hc Hm HL1 HL2 HL3. unfold tag_post.
+  unfold tag_object, store_refs_body, and_sc, notm, write_refs_tmp, is_in_refs, read_lines,
+    update_refs_add, verify_refs, read_cid, is_in_refs, read_lines.
+  fgo. do 11 (site j). val_fin.
+Qed.
+
+Lemma tag_one_off_absent : forall m L p c j,
+  lookup (APidRef p) m = None -> lookup (ACidRef c) m = None ->
+  memb lock_eqb (LRefPid, IPid p) L = false -> memb lock_eqb (LCid, ICid c) L = false ->
+  memb lock_eqb (LFile, IDoc (ACidRef c)) L = false ->
+  exists M' R st', rfs (FWait j false) (mkWorld m L) (tag_object p c) = Some (mkWorld M' L, R, st') /\
+                   tag_post m p c M' R.
+Proof.
+  intros m L p c j Hp Hc HL1 HL2 HL3. unfold tag_post.
+  unfold tag_object, store_refs_body, and_sc, notm, write_refs_tmp, is_in_refs, read_lines,
+    update_refs_add, verify_refs, read_cid, is_in_refs, read_lines.
+  fgo. do 5 (site j).
+  assert (Hne : Nat.eqb n n0 = false).
+  { destruct (Nat.eqb n n0) eqn:E; auto. apply Nat.eqb_eq in E. subst n0.
+    rewrite lookup_update_eq in Hab0. discriminate. }
+  assert (Hne' : Nat.eqb n0 n = false) by (rewrite Nat.eqb_sym; exact Hne).
+  fgo. do 5 (site j). val_fin.
+Qed.
+
+(* tag_object under a one-off fault, for a pid that has no reference and is in no list *)
+Lemma tag_one_off : forall m L p c j,
+  lookup (APidRef p) m = None ->
+  (forall y, lookup (ACidRef c) m = Some y -> exists l, y = CLines l /\ memb Nat.eqb p l = false) ->
+  memb lock_eqb (LRefPid, IPid p) L = false -> memb lock_eqb (LCid, ICid c) L = false ->
+  memb lock_eqb (LFile, IDoc (ACidRef c)) L = false ->
+  exists M' R st', rfs (FWait j false) (mkWorld m L) (tag_object p c) = Some (mkWorld M' L, R, st') /\
+                   tag_post m p c M' R.
+Proof.
+  intros m L p c j Hp Hc HL1 HL2 HL3.
+  destruct (lookup (ACidRef c) m) as [y|] eqn:E.
+  - destruct (Hc y eq_refl) as (l & -> & Hm). eapply tag_one_off_present; eauto.
+  - apply tag_one_off_absent; assumption.
+Qed.
+
+(* (F4) for tag_object, every start state in which p is unbound, every one-off fault: if the call
+   raises, p is unbound again — no reference, in NO cid list (the roll-back removes the line it
+   may have added; no stale line survives a one-off fault) — no object changed, no lock left, and
+   the same call issued again succeeds and binds p *)
+Theorem tag_one_off_fault : forall w0 p c j w e,
+  Inv w0 -> lookup (APidRef p) (fs w0) = None ->
+  run_fault (FWait j false) w0 (api (CTag p c)) = Some (w, Exn e) ->
+  locks w = [] /\
+  (forall k, lookup (AObj k) (fs w) = lookup (AObj k) (fs w0)) /\
+  unbound_and_retry (CTag p c) p w.
+Proof.
+  intros [m L] p c j w e HI Hp Hrun. pose proof HI as [(W & I1 & I2) HL]. simpl in HL, Hp. subst L.
+  assert (Hty : typed (fs w)).
+  { eapply (fault_WI (mkWorld m []) (CTag p c) p); [exact HI| |exact Hrun].
+    intros p' H. inversion H. reflexivity. }
+  assert (Hnl : forall k l, lookup (ACidRef k) m = Some (CLines l) -> ~ In p l).
+  { intros k l Hl Hin. destruct (I2 _ _ Hl) as (_ & _ & Hb). pose proof (Hb _ Hin) as Hb'.
+    cbn [fs] in Hb'. congruence. }
+  rewrite rfs_run_fault in Hrun. cbn [api] in Hrun. unfold lift_unit in Hrun. rewrite rfs_mbind in Hrun.
+  destruct (tag_one_off m [] p c j Hp) as (M' & R & st' & Hr & Hobj & Hpost);
+    try reflexivity.
+  { intros y Hy. destruct (wt_cidref _ _ _ W Hy) as [l ->]. exists l. split; [reflexivity|].
+    apply (proj2 (memb_false_not_In Nat.eqb nat_eqb_true Nat.eqb_refl p l)). eapply Hnl; eauto. }
+  rewrite Hr in Hrun. destruct R as [u|e']; [simpl in Hrun; discriminate|].
+  inversion Hrun; subst w e'; clear Hrun. destruct Hpost as (P1 & P2 & P3). simpl fs in *.
+  split; [reflexivity|]. split; [exact Hobj|].
+  split; [exact P1|]. split.
+  - intros k l Hl. cbn [fs] in Hl. destruct (Nat.eq_dec k c) as [->|Hk]; [eapply P3; eauto|].
+    rewrite (P2 k Hk) in Hl. eapply Hnl; eauto.
+  - destruct (tag_object_total M' [] p c Hty P1 eq_refl eq_refl eq_refl) as (m2 & Hr2 & Q1 & (l & Q2 & Q3) & _).
+    exists (mkWorld m2 []), VUnit. split.
+    + cbn [api]. unfold lift_unit. rewrite run_mbind, Hr2. reflexivity.
+    + split; [exact Q1|]. exists l. split; [exact Q2|]. apply CrashFault.memb_nat_In. exact Q3.
+Qed.
+
+(* FINDING: the roll-back is not conditional on the call having created the binding.  When the pid
+   is ALREADY bound to that very cid (a duplicate store_object / tag_object), a one-off failure of
+   makedirs — before anything was written — makes the call raise OSError and the roll-back
+   (untag_object) removes the EXISTING binding: the pid reference and, the pid being the only one,
+   the cid list are gone; the object stays without any reference.  The earlier binding is NOT
+   intact (the pid "can be stored again", which is what the menu checker accepts). *)
+Example duplicate_store_fault_untags :
+  let w1 := mkWorld [(AObj 7, CData 7 1 1); (APidRef 1, CCid 7); (ACidRef 7, CLines [1])] [] in
+  let c := CStore (Some 1) SrcPath 7 1 VSzNone VCkNone in
+  run_seq empty_world (api c) = Some (w1, Val (VMeta 7 1)) /\
+  run_seq w1 (api c) = Some (w1, Exn EHashStoreRefsAlreadyExists) /\
+  site_op 3 w1 (api c) = Some (MkDirs (APidRef 1)) /\
+  run_fault (FWait 3 false) w1 (api c) = Some (mkWorld [(AObj 7, CData 7 1 1)] [], Exn EOSError) /\
+  run_fault (FWait 0 false) w1 (api (CTag 1 7)) = Some (mkWorld [(AObj 7, CData 7 1 1)] [], Exn EOSError).
+Proof. vm_compute. repeat split; reflexivity. Qed.
